@@ -58,6 +58,19 @@ CLAIMED = {
     'C19': ('5 C19, 3.2',
             'The TLC-emitted cases of the C01-C05, C07, C03 and C14 families (restricted to expressions that mean the same in both languages) rendered into JavaScript syntax and run through rbql-js query_table in a node batch driver; rows, header, error class and record number compared with Ref; caller arrays snapshotted and compared, output rows tested for identity with input rows.',
             ENG_NOTE + ' Expressions whose meaning differs between the languages (None + str, int("1.5")) are excluded from the JS families; the module-global query context of rbql-js (concurrent queries) is a documented limitation and not claimed.', ENG_TECH),
+
+    'C10': ('5 C10, 3.7',
+            'TLC checks CsvCodec on every table within the bound: the step-by-step writer machine emits WriteTable(T); Representable(T) (the syntactic characterisation of C10) implies that RefRead of the written text is T without warnings for every line separator, and for single-character delimiters the characterisation is tight; lossy output always sets the None / separator warning (exact for single-character delimiters). Every emitted case is replayed: the real CSVWriter of rbql-py (encodings None, utf-8, latin-1) and of rbql-js must emit exactly the text and warning flags TLC computed, the real readers must read it back as TLC\'s RefRead. Random tables over full Unicode and all 256 latin-1 code points written and read back by the real code are judged by TLC (CodecTrace).',
+            'Exhaustive within the bound (1 record x <= 2 fields x <= 2-3 characters, 2 records x <= 2 fields x <= 1 character over {quote, delimiter chars, space, CR, LF, other}); comment prefix off; zero-field records are outside the statement (observation I8).',
+            'TLA+ writer machine + declarative reader model-checked by TLC (round-trip theorem); exhaustive replay into both ports; TLC trace validation of random tables'),
+    'C18': ('5 C18',
+            'Both ports are confronted with the SAME TLA+ values and with each other: every line within the bound (CsvScanner) -> smart_split (4 policies, normal and preserve), quote_field, rfc_quote_field of both ports; every text within the bound x policy x comment prefix (CsvReader/RefRead) -> Python reader and JS reader (bulk and stream); every table within the bound (CsvCodec) -> both writers must emit TLC\'s text and warnings and both readers read it back as RefRead (so a table written by either is read identically by the other); language-neutral select lists x header/no header x join -> both must produce HeaderRef\'s header; direct py == js comparison on top.',
+            'Bounds as in C10 - C12; error messages compared through class and cited record/line numbers.',
+            'shared TLA+ specifications model-checked by TLC; the same TLC-emitted cases replayed into both ports; direct differential comparison'),
+    'C20': ('5 C20, 3.9',
+            'TLC explores JsCsvReader (producer/consumer machine: OnData(n) with any n, OnEnd, GetRecord in any interleaving; streaming decoder pending bytes, partial line, CR flag, multi-line aggregator, record queue, stored exception) for every byte string within the bound and proves the consumer receives RefRead(Decode(bytes)) and that valid UTF-8 is never rejected; every emitted case is delivered to the real rbql-js CSVRecordIterator through a hand-pushed Readable under all 2^(n-1) partitions x {consumer first, producer first, all input before the first get_record} and in bulk mode; five files > 64 KiB with a multi-byte character / CRLF / quoted multi-line field straddling byte 65536 go through fs.createReadStream.',
+            'Exhaustive within the bound (quick: <= 4 bytes over 6 ASCII symbols, <= 3 over 13 byte values; thorough <= 6 / <= 4); single-character delimiter and comment prefix.',
+            'TLA+ producer/consumer reader machine model-checked by TLC; exhaustive partition x interleaving replay into rbql-js'),
 }
 
 PENDING_REASON = 'check not built yet in this session (specification work in progress; see DESIGN.md section 5 for the plan)'
